@@ -7,15 +7,18 @@
 
    WHAT IS PROVED (compiler correctness against the validated VM model, by structural induction on the AST,
    i.e. for programs of every size):
-     inside the induction   expressions: EInt EStr ENull ETrue EFalse EVar EAssign EUn (+ -) EBin (all sixteen
-                            binary operators incl. the non-short-circuit &&) EOr (||) ETern;
-                            statements: SNop SExpr SSeq SIf (if / else if / else)
-     outside                EArr EIdx ERoll (arrays live in the VM's heap, dice need the dice-state lemmas);
-                            SWhile SBreak SContinue.  For these the tie is the K3 / K4 correspondence only.
-   The full statement (every constructor) stays visible as C02_compile_correct_statement; as it stands it is
-   REFUTED by the recorded defect while-body-stack-leak (C02_compile_correct_statement_refuted). *)
+     C02_compile_correct_expr / _partial   scalar fragment (no heap), exact values
+     C02_compile_correct_arrays            + array literals, indexing, all operators on arrays (values related through the heap)
+     C02_compile_correct_loops             + while / break / continue at any nesting, under the stack-room hypothesis `wneed`
+     C02_compile_correct_dice              + dice terms XdY with arbitrary operand expressions, under min / max mode
+                                             (EVERY constructor of Model/Ast.v; in random mode the definition gives no value
+                                             and nothing is claimed — the roll rules themselves are C04 / C05 / C15)
+   The statement WITHOUT the stack-room hypothesis stays visible as C02_compile_correct_statement; as it stands it is
+   REFUTED by the recorded defect while-body-stack-leak (C02_compile_correct_statement_refuted).
+   Outside Model/Ast.v (dicts, functions, templates, slices, methods, computed values): the tie is the K2 / K3 / K4
+   correspondence only. *)
 From Coq Require Import String NArith ZArith List Bool.
-From DS Require Import Model.Str Model.PCG Model.Value Model.VM Model.Ast Model.Denote Model.Compile Proofs.CompileProofs Proofs.CompileArrays.
+From DS Require Import Model.Str Model.PCG Model.Value Model.VM Model.Ast Model.Denote Model.Compile Proofs.CompileProofs Proofs.CompileArrays Proofs.CompileDice.
 Import ListNotations.
 Open Scope Z_scope.
 
@@ -99,6 +102,31 @@ Theorem C02_compile_correct_loops : forall p fuel, loop_stmt p -> wneed (Z.of_na
     end.
 Proof. exact compile_correct_loops. Qed.
 
+(* ---- dice terms: every statement and EVERY expression of Model/Ast.v, `XdY` with arbitrary operand expressions of the
+   fragment.  Under min mode / max mode of the configuration the definition gives XdY the value X*1 resp. X*Y (errors:
+   non-integer or non-positive operand, the first operand checked before the second is evaluated); the compiled code
+   (dice.init, dice.setTimes, operand, mark.detail, dice) computes the same on the VM model, leaves the dice-state stack
+   and the generator as they were, and the conclusion again relates the final states, so it composes over histories.
+   `dwneed` is `wneed` with max (not sum) for the two operands of a roll: the count is popped before the sides run. *)
+Theorem C02_compile_correct_dice : forall p fuel, dice_stmt p -> dwneed (Z.of_nat fuel) p <= 999 -> wbneed p <= 20 ->
+  forall cfg ftab env src st,
+    cfg_op_limit cfg = 0 -> erel (vs_heap st) env (vars_of_state st) ->
+    match denote fuel cfg p env with
+    | DVal v env' =>
+      exists fuel' st' vv, run fuel' {| e_ftab := ftab; e_cfg := cfg |} (compile p) src st = Val vv st'
+                           /\ arel (vs_heap st') v vv /\ erel (vs_heap st') env' (vars_of_state st')
+                           /\ vs_attrs st' = vs_attrs st /\ heap_le (vs_heap st) (vs_heap st')
+    | DErr c env' =>
+      exists fuel' st', run fuel' {| e_ftab := ftab; e_cfg := cfg |} (compile p) src st = Err c st'
+                        /\ erel (vs_heap st') env' (vars_of_state st')
+    | DOutOfFuel | DUnsup _ => True
+    end.
+Proof. exact compile_correct_dice_loops. Qed.
+
+(* a roll has a value in the definition only under min / max mode *)
+Theorem C02_roll_value_needs_mode : forall cfg x y env v env', dexpr cfg (ERoll x y) env = EV v env' -> roll_mode cfg <> 0.
+Proof. exact dexpr_roll_value_mode. Qed.
+
 (* ---- the full statement, every constructor of Model/Ast.v *)
 Definition C02_compile_correct_statement : Prop := compile_correct_statement.
 
@@ -175,5 +203,13 @@ Proof. exact example_core_error. Qed.
 Example C02_printer_choices :
   print (mk_ws 1) example_core <> print (mk_ws 2) example_core.
 Proof. vm_compute. discriminate. Qed.
+Example C02_dice_nonvacuous :
+  exists fuel' st' vv, run fuel' {| e_ftab := []; e_cfg := cfg_max |} (compile example_dice) "" st_init = Val vv st'
+                       /\ arel (vs_heap st') (DvArr [DvInt 4; DvInt 12; DvInt 18]) vv
+                       /\ erel (vs_heap st') [("x"%string, DvInt 18)] (vars_of_state st').
+Proof. exact example_dice_run_max. Qed.
+
 Print Assumptions C02_compile_correct_arrays.
 Print Assumptions C02_compile_correct_loops.
+Print Assumptions C02_compile_correct_dice.
+Print Assumptions C02_roll_value_needs_mode.
